@@ -405,11 +405,16 @@ func main() {
 			}
 			if !same(ys[i], gs[i]) {
 				in := c
-				if shrunk < 2 && os.Getenv("VERIF_NOSHRINK") == "" {
+				if shrunk < 2 && os.Getenv("VERIF_NOSHRINK") == "" && c.Feat["switch-tagless-case-list"] == 0 {
 					shrunk++
 					in = progCase{Src: shrink(c.Src)}
 				}
-				run.Disagree(common.Disagreement{Kind: "impl-vs-ref", Input: in, Impl: ys[i].String(), Ref: gs[i].String()})
+				d := common.Disagreement{Kind: "impl-vs-ref", Input: in, Impl: ys[i].String(), Ref: gs[i].String()}
+				if c.Feat["switch-tagless-case-list"] > 0 {
+					// divergence class of F53 (decidable on the input): a tagless switch with a clause of two or more expressions
+					d.Finding = "tagless-switch-case-list"
+				}
+				run.Disagree(d)
 			}
 		}
 	}
